@@ -34,3 +34,8 @@ claim("C20",
       "Generated segment tables (with/without cn, autosome/X/Y/PAR rows, start 0) and 1..5-sample file sets (mismatching bins, duplicate IDs) are exported; the harness parses the output back and re-derives which records must appear and what each field must say.",
       "Trusted: r/x table shared with C01; integer probes; PAR rows excluded where BED and VCF paths use different reference copies for cn-less tables.",
       "DESIGN.md 5/C20")
+claim("C16",
+      "property-based testing (Hypothesis): expected grouping read off a generated layout plan; genemetrics/squash/breaks rows re-derived",
+      "Generated chromosome layouts (genes, interrupted genes, intergenic stretches at every position, single trailing bins, gene-less chromosomes, stepped row index, optional segments cutting genes) give the expected by_gene sequence by construction; genemetrics (with and without segments), squash_genes and breaks are compared with rows re-derived from the plan.",
+      "Trusted: the plan-to-groups reading; explicit sample sex; positive weights; comma-free names.",
+      "DESIGN.md 5/C16")
